@@ -448,3 +448,88 @@ func TestReplaceToken(t *testing.T) {
 		t.Errorf("canonEq")
 	}
 }
+
+const srcInline2 = `package fix
+type S struct{ n int; e error }
+var sentinel error
+func sink()
+func isS(e error) bool { return e == sentinel }
+func (s *S) bump() { s.n = 1 }
+func (s *S) guard() { if r := recover(); r != nil { s.n = 2 } }
+func boom()
+func named(b bool) (ok bool, err error) {
+	if b {
+		return true, nil
+	}
+	return false, sentinel
+}
+func g(s *S, x error, b bool) {
+	defer s.guard()
+	if x == nil {
+		return
+	}
+	if isS(x) {
+		sink()           // x == sentinel known in the caller's vocabulary
+	}
+	h := s.bump
+	h()
+	boom()
+}`
+
+func TestInlineBoolHelperAndMethodValue(t *testing.T) {
+	f := fixture(t, srcInline2, "g")
+	enters := 0
+	res, err := Analyze(f, Config{NoHavoc: true, Inline: inlineAll(f),
+		MayPanic: func(call *ast.CallExpr, callee types.Object) bool { return callee != nil && callee.Name() == "boom" },
+		OnInline: func(st *State, ev *InlineEvent) {
+			if ev.Enter {
+				enters++
+			}
+		}})
+	if err != nil {
+		t.Fatal(err)
+	}
+	sinks := callsNamed(f, "sink")
+	if len(res.At[sinks[0]]) == 0 {
+		t.Fatal("sink unreachable")
+	}
+	for _, st := range res.At[sinks[0]] {
+		if !hasFact(st, "eq:x", True) || !hasFact(st, "nil:x", False) {
+			t.Errorf("caller does not know x == sentinel / x != nil at sink: %v", st.Facts())
+		}
+	}
+	// the method value h() is resolved and inlined: s.n == 1 known at some exit; the deferred guard recovers boom's panic
+	var sawBump, sawRecovered, sawPanicExit bool
+	for _, ex := range res.Exits {
+		if hasFact(ex.State, ".n==1", True) {
+			sawBump = true
+		}
+		if ex.State.Is(Recovered, True) && hasFact(ex.State, ".n==2", True) {
+			sawRecovered = true
+		}
+		if ex.Kind == ExitPanic {
+			sawPanicExit = true
+		}
+	}
+	if !sawBump || !sawRecovered || sawPanicExit {
+		t.Errorf("sawBump=%v sawRecovered=%v sawPanicExit=%v inlined=%v", sawBump, sawRecovered, sawPanicExit, res.Inlined)
+	}
+	if enters < 3 {
+		t.Errorf("OnInline enters = %d", enters)
+	}
+}
+
+func TestNamedResultsAtReturn(t *testing.T) {
+	f := fixture(t, srcInline2, "named")
+	res, err := Analyze(f, Config{})
+	if err != nil {
+		t.Fatal(err)
+	}
+	for _, ex := range res.Exits {
+		okT := hasFact(ex.State, "v:ok", True) && hasFact(ex.State, "nil:err", True)
+		okF := hasFact(ex.State, "v:ok", False) && hasFact(ex.State, "nil:err", False)
+		if !okT && !okF {
+			t.Errorf("named results not assigned at return: %v", ex.State.Facts())
+		}
+	}
+}
